@@ -9,54 +9,102 @@ TRUST = ("Lean 4.33 kernel; axioms at most propext/Classical.choice/Quot.sound (
          "translator translate/serial_fields.py (regex/brace parser of the C++ read/write pairs; members by Shark's "
          "m_/mp_/mep_/mpe_ naming) is trusted to render the source faithfully; ")
 MANIFEST = dict(
-  text=("Regenerated on every run from ALL hand-written read/write pairs (68) and serialize templates (42) under include/ and "
-        "src/: per class the ordered lists of archived expressions of read and of write and the data members. Theorems "
-        "(Gen/Serial.lean, Props/C18.lean): for every class read and write archive the same expressions in the same order with "
-        "the ISerializable signatures, and every data member is archived or on a reviewed allow-list with a reason "
-        "(closed by decide on the generated lists); a generic hand-proved lemma turns this into 'reading what was written "
-        "restores every archived expression, for every state and every fresh object' (read_write_id, class_roundtrip, "
-        "behaviour_preserved, optimizer_continues); dataset codecs (dense, sparse, labelled; any batch structure incl. empty "
-        "and single-element) decode what they encode (dataset_roundtrip_*). The correspondence round-trips real instances "
-        "(models, kernels incl. ModelKernel, kernel expansions with kernel, normalizer, datasets, eight optimizers after k "
-        "steps) through polymorphic text and binary archives and compares behaviour exactly."),
-  note=TRUST + "boost.serialization (tokens <-> bytes, pointer tracking) is not modelled; that a member's value determines behaviour "
-       "the way the C++ uses it is exercised by the harness on the instantiated classes only (~25 of 108 classes); "
-       "allow-list entries marked NOTED-unprobed (RBM layers, DropoutLayer, CMAChromosome::m_lastZ, PenalizingEvaluator) are not claimed.",
-  technique="Lean 4 proof over field lists regenerated from the C++ by a translator + differential round-trip harness (ASan/UBSan)",
-  design="§6 C18, §4 T3")
+  text=("Regenerated on every run from ALL hand-written read/write pairs (68) and serialize templates (42) under include/ and src/: "
+        "per class the ordered archived expressions of read and of write, the data members, the members mentioned by the behaviour "
+        "functions (eval, operator(), parameterVector, numberOfParameters, step, inputShape, outputShape and the methods they call), "
+        "the members rebuilt by read, the class family; and token codecs of the container classes (MatrixStorage, compressed_matrix, "
+        "Shape, SharedContainer, Data, LabeledData, BaseWeightedDataset) built from the field lists and declared member types. "
+        "Theorems (Gen/Serial.lean, Gen/SerialCodec.lean, Props/C18.lean): per class read and write archive the same expressions in "
+        "the same order with the ISerializable signatures; every data member is archived or on a reviewed allow-list; every member a "
+        "behaviour function reads is archived, rebuilt by read or allow-listed with a reason (dep_<Class>); hence reading what was "
+        "written restores every archived expression for every state and every target object, used or not (read_write_id, "
+        "class_roundtrip, read_overwrites_stale, read_twice_idem, rewrite_same_archive), behaviour functions agree when the target "
+        "agrees on the unarchived dependency keys only (family_behaviour_preserved), optimizers continue identically after a restore "
+        "at every step index (optimizer_continues_every_index); every generated container encoder decodes what it encodes followed "
+        "by any rest, for all sizes incl. no batch / empty batches / single elements (Codec law; dense/sparse/labelled/weighted "
+        "dataset token theorems), remora::vector and remora::matrix load correctly into ANY old object (vecLoad_roundtrip, "
+        "matLoad_roundtrip). The correspondence compares the payload token stream of the real write (recording archive) with the "
+        "generated encoder token by token, and runs 72 of the 108 classes (all dataset kinds incl. weighted and DataView-converted, "
+        "20 model classes incl. trainer-produced, 13 kernel classes incl. composites, kernel expansions dense/sparse/composite, "
+        "18 optimizers after every step index 0..6 (thorough 0..25)) through write -> read into a used target -> read another state -> "
+        "read twice -> second generation -> byte-equal rewritten archive, in polymorphic text and binary archives."),
+  note=TRUST + "boost.serialization (bytes, pointer tracking, its bookkeeping tokens) is not modelled; the type table CODEC_CLASSES (which "
+       "codec a C++ member type denotes) and the three pinned serialize bodies (vector, matrix, compressed_matrix_impl: modelled by "
+       "hand, pinned by text) are reviewed knowledge; that a member's VALUE determines behaviour the way the C++ uses it is exercised "
+       "by the harness on the 72 round-tripped classes only — the evidence lists the 36 classes not round-tripped (hypervolume and "
+       "indicator operators, GridSearch family, MklKernel, GaussianTaskKernel, OneVersusOneClassifier (needs export registration), "
+       "OptimizationTrainer, result sets, decompositions, triangular_matrix, compressed_vector/MOEAD/RVEA while findings F-C18-2/3 are open); "
+       "allow-list entries marked NOTED-unprobed (BinaryLayer::m_baseRate, DropoutLayer, CMAChromosome::m_lastZ) are not claimed.",
+  technique="Lean 4 proof over field lists, dependency lists and token codecs regenerated from the C++ by a translator + differential "
+            "round-trip harness with a token-recording archive (ASan/UBSan)",
+  design="§6 C18, §4 T3, §14")
 
 FINISH = dict(level="proof",
-              rule="datasets: kind x archive format x dimension x batch-size lists (incl. no batch, empty batches, single element) "
-                   "from one SplitMix64 stream; objects: every harness label x {text, binary} (optimizers after k in 0..4 (thorough: up to 25) steps); "
+              rule="datasets: every kind x {text, binary} x 7 boundary batch structures, then kind x format x dimension x batch-size lists "
+                   "from one SplitMix64 stream; vectors into used vectors; std wrappers; objects: every harness label x {text, binary} "
+                   "(optimizers after every k in 0..6 (thorough: 0..25) steps); "
                    "non-trivial = dataset with >= 2 batches or any object case; distinct = distinct op text")
 
 LAKE_TARGETS = ["SharkVerif.Props.C18", "drv_c18"]
 
 # harness label -> classes whose generated obligations the prediction rests on
+DATA = "Data,SharedContainer,Shape"
 OBJECTS = {
-    "LinearModel-offset": "LinearModel", "LinearModel-nooffset": "LinearModel",
-    "Normalizer": "Normalizer", "LinearClassifier": "Classifier,LinearModel", "LinearModel-float": "LinearModel",
-    "RBFLayer": "RBFLayer",
+    # models, normaliser
+    "LinearModel-offset": "LinearModel,Shape,matrix,vector", "LinearModel-nooffset": "LinearModel", "LinearModel-float": "LinearModel",
+    "Normalizer": "Normalizer", "Normalizer-nooffset": "Normalizer", "LinearClassifier": "Classifier,LinearModel",
     "ConcatenatedModel": "ConcatenatedModel,LinearModel", "ConcatenatedModel-frozen-layer": "ConcatenatedModel,LinearModel",
+    "ConcatenatedModel-nested": "ConcatenatedModel,LinearModel",
+    "RBFLayer": "RBFLayer", "Conv2DModel": "Conv2DModel", "Conv2DModel-valid": "Conv2DModel", "PoolingLayer": "PoolingLayer",
+    "ResizeLayer": "ResizeLayer", "NeuronLayer": "NeuronLayer", "DropoutLayer": "DropoutLayer", "CMACMap": "CMACMap",
+    "CARTree-classifier": "CARTree,Node", "CARTree-regression": "CARTree,Node",
+    "Centroids": "Centroids," + DATA, "Centroids-kmeans": "Centroids," + DATA,
+    "HardClusteringModel": "ClusteringModel,AbstractClustering,Centroids", "SoftClusteringModel": "ClusteringModel,AbstractClustering,Centroids",
+    "NearestNeighborModel": "BaseNearestNeighbor", "Ensemble": "EnsembleImpl,LinearModel",
+    "BinaryRBM": "RBM,BinaryLayer", "GaussianBinaryRBM": "RBM,GaussianLayer,BinaryLayer",
+    # trainer-produced models
+    "trained-Normalizer": "Normalizer", "trained-LDA": "Classifier,LinearModel", "trained-LinearRegression": "LinearModel",
+    # kernels
     "GaussianRbfKernel": "GaussianRbfKernel", "GaussianRbfKernel-unconstrained": "GaussianRbfKernel",
     "LinearKernel": "LinearKernel", "PolynomialKernel": "PolynomialKernel", "MonomialKernel": "MonomialKernel",
-    "ARDKernel": "ARDKernelUnconstrained", "ScaledKernel": "ScaledKernel,GaussianRbfKernel",
+    "ARDKernel": "ARDKernelUnconstrained", "ARDKernel-resized": "ARDKernelUnconstrained", "ScaledKernel": "ScaledKernel,GaussianRbfKernel",
     "NormalizedKernel": "AbstractMetric", "WeightedSumKernel": "WeightedSumKernel,GaussianRbfKernel,PolynomialKernel",
+    "WeightedSumKernel-of-composites": "WeightedSumKernel,ScaledKernel,ProductKernel,GaussianRbfKernel,PolynomialKernel",
     "ProductKernel": "ProductKernel,GaussianRbfKernel,PolynomialKernel",
     "ModelKernel": "ModelKernel,ModelKernelImpl,GaussianRbfKernel,LinearModel",
-    "KernelExpansion-offset": "KernelExpansion,GaussianRbfKernel,Data",
-    "KernelExpansion-nooffset": "KernelExpansion,GaussianRbfKernel,Data",
-    "KernelExpansion-single-basis": "KernelExpansion,GaussianRbfKernel,Data",
+    "DiscreteKernel": "DiscreteKernel", "SubrangeKernel": "SubrangeKernelWrapper,WeightedSumKernel,GaussianRbfKernel,PolynomialKernel",
+    # kernel expansions with their kernel
+    "KernelExpansion-offset": "KernelExpansion,GaussianRbfKernel," + DATA,
+    "KernelExpansion-nooffset": "KernelExpansion,GaussianRbfKernel," + DATA,
+    "KernelExpansion-single-basis": "KernelExpansion,GaussianRbfKernel," + DATA,
+    "KernelExpansion-composite-kernel": "KernelExpansion,WeightedSumKernel,GaussianRbfKernel,PolynomialKernel," + DATA,
+    "KernelExpansion-sparse": "KernelExpansion,LinearKernel,compressed_matrix,compressed_matrix_impl,MatrixStorage," + DATA,
+    "KernelClassifier": "Classifier,KernelExpansion,GaussianRbfKernel," + DATA,
 }
+LS = ",AbstractLineSearchOptimizer,LineSearch"
 OPTIMIZERS = {
     "SteepestDescent": "SteepestDescent", "Rprop": "Rprop", "Adam": "Adam",
-    "BFGS": "BFGS,AbstractLineSearchOptimizer,LineSearch", "LBFGS": "LBFGS,AbstractLineSearchOptimizer,LineSearch",
-    "CG": "CG,AbstractLineSearchOptimizer,LineSearch", "TrustRegionNewton": "TrustRegionNewton", "CMA": "CMA",
+    "BFGS": "BFGS" + LS, "LBFGS": "LBFGS" + LS, "CG": "CG" + LS, "TrustRegionNewton": "TrustRegionNewton",
+    "CMA": "CMA,MultiVariateNormalDistribution", "CMSA": "CMSA,MultiVariateNormalDistribution",
+    "ElitistCMA": "ElitistCMA,Individual,CMAChromosome,MultiVariateNormalDistributionCholesky",
+    "CrossEntropyMethod": "CrossEntropyMethod", "SimplexDownhill": "SimplexDownhill",
+    "MOCMA": "IndicatorBasedMOCMA,Individual,CMAChromosome,IndicatorBasedSelection,HypervolumeIndicator,PenalizingEvaluator",
+    "SteadyStateMOCMA": "IndicatorBasedSteadyStateMOCMA,Individual,CMAChromosome,IndicatorBasedSelection,HypervolumeIndicator",
+    "SMSEMOA": "SMSEMOA,Individual,IndicatorBasedSelection,HypervolumeIndicator,SimulatedBinaryCrossover,PolynomialMutator",
+    "RealCodedNSGAII": "IndicatorBasedRealCodedNSGAII,Individual,IndicatorBasedSelection,SimulatedBinaryCrossover,PolynomialMutator",
+    "MOEAD": "MOEAD,Individual,SimulatedBinaryCrossover,PolynomialMutator",
+    "RVEA": "RVEA,Individual,SimulatedBinaryCrossover,PolynomialMutator,ReferenceVectorGuidedSelection,ReferenceVectorAdaptation",
 }
+# classes reached only when a compile probe succeeds (open findings while it fails)
+PROBED = {"MOEAD": "MOEAD_RVEA", "RVEA": "MOEAD_RVEA"}
+DS_KINDS = {"dense": DATA + ",matrix", "sparse": DATA + ",compressed_matrix,compressed_matrix_impl,MatrixStorage",
+            "sparse-loose": DATA + ",compressed_matrix", "dense-cls": "LabeledData,vector," + DATA, "sparse-cls": "LabeledData," + DATA,
+            "dense-reg": "LabeledData," + DATA, "dense-w": "BaseWeightedDataset," + DATA, "sparse-cls-w": "BaseWeightedDataset,LabeledData," + DATA,
+            "dense-view": DATA}
 
 
-def gen_ds(r, ctx=None):
-    kind = r.choice(["dense", "sparse", "dense-cls", "sparse-cls", "dense-reg"])
+def gen_ds(r, ctx=None, kind=None):
+    kind = kind or r.choice(list(DS_KINDS))
     fmt = r.choice(["text", "binary"])
     dim = r.choice([0, 1, 1, 2, 3, 5, 8])
     shape = r.below(10)
@@ -68,19 +116,30 @@ def gen_ds(r, ctx=None):
     if ctx:
         ctx.hist("ds_kind", kind); ctx.hist("archive_format", fmt); ctx.hist("ds_batches", len(bs))
         ctx.hist("ds_elements", sum(bs)); ctx.hist("ds_dim", dim)
+        ctx.hist("ds_boundary", "no-batch" if not bs else "only-empty-batches" if sum(bs) == 0 else
+                 "single-element" if sum(bs) == 1 else "has-empty-batch" if 0 in bs else "regular")
     return f"ds {kind} {fmt} {dim} {r.below(50)} " + " ".join(map(str, bs))
 
 
-def object_ops(ctx=None, warm=(0, 1, 2, 4)):
+def gen_vec(r, ctx=None):
+    n = r.choice([0, 0, 1, 2, 3, 5]); old = r.choice([0, 1, 3, 8])
+    if ctx: ctx.hist("vec_saved_vs_target", f"{'empty' if n == 0 else 'one' if n == 1 else 'many'}-into-{'empty' if old == 0 else 'shorter' if old < n else 'longer' if old > n else 'equal'}")
+    return f"vec {r.choice(['text', 'binary'])} {old} " + " ".join(str(r.range(-9, 10)) for _ in range(n))
+
+
+def object_ops(ctx=None, warm=(0, 1, 2, 4), skip=()):
     ops = []
     for fmt in ("text", "binary"):
         for lab, cls in OBJECTS.items():
             ops.append(f"obj {lab} {fmt} {cls}")
         for lab, cls in OPTIMIZERS.items():
+            if lab in skip: continue
             for k in warm:
                 ops.append(f"obj {lab}-after-{k} {fmt} {cls}")
     if ctx:
         for o in ops: ctx.hist("object_class", o.split()[1].split("-")[0])
+        for o in ops:
+            if "-after-" in o: ctx.hist("optimizer_restore_step_index", o.split()[1].rsplit("-", 1)[1])
     return ops
 
 
@@ -95,7 +154,9 @@ def load_corpus():
 
 
 FINDING_OF = {"ModelKernel": "F7-ModelKernel-read-signature",
-              "ConcatenatedModel": "F10-ConcatenatedModel-read-into-copy"}
+              "ConcatenatedModel": "F10-ConcatenatedModel-read-into-copy",
+              "ElitistCMA": "F-C18-4-ElitistCMA-best-not-archived",
+              "SubrangeKernel": "F-C18-5-SubrangeKernel-subkernels-not-archived"}
 
 
 def classify(ops, res):
@@ -122,35 +183,112 @@ def translate(ctx):
     return ctx.translate("serial_fields.py")
 
 
+PROBES = {"MOEAD_RVEA": ("F-C18-3:moead-rvea-serialize-signature",
+                         "MOEAD::serialize(Archive&) / RVEA::serialize(Archive&) lack the version parameter and hide "
+                         "ISerializable::serialize: `archive << moead` does not compile, and through an ISerializable& nothing is archived",
+                         ["include/shark/Algorithms/DirectSearch/MOEAD.h", "include/shark/Algorithms/DirectSearch/RVEA.h"]),
+          "CVEC": ("F-C18-2:compressed_vector-serialize-does-not-compile",
+                   "remora::compressed_vector::serialize archives its base BaseSparseVector, which has no serialize(): "
+                   "serializing a CompressedRealVector does not compile",
+                   ["include/shark/LinAlg/BLAS/sparse.hpp", "include/shark/LinAlg/BLAS/cpu/sparse.hpp"])}
+
+
+def probe(ctx, name):
+    """syntax-only compile probe, cached by the hash of the headers involved"""
+    import subprocess, hashlib
+    d = os.path.join(core.CACHE, "c18probe"); os.makedirs(d, exist_ok=True)
+    h = hashlib.sha256(name.encode())
+    for f in PROBES[name][2] + ["include/shark/Core/ISerializable.h"]:
+        h.update(core.file_sha(os.path.join(core.REPO, f)).encode())
+    h.update(core.file_sha(os.path.join(core.VERIF, "harness", "c18_probe.cpp")).encode())
+    key = os.path.join(d, name + "-" + h.hexdigest()[:16])
+    if os.path.exists(key):
+        return open(key).read().strip() == "ok"
+    cmd = ["g++", "-std=c++11", "-DNDEBUG", "-w", "-fopenmp", "-fsyntax-only", "-DPROBE_" + name, "-I" + ctx.shark_h(),
+           "-I" + os.path.join(core.REPO, "include"), os.path.join(core.VERIF, "harness", "c18_probe.cpp")]
+    ok = subprocess.run(cmd, stdout=subprocess.DEVNULL, stderr=subprocess.DEVNULL).returncode == 0
+    open(key, "w").write("ok" if ok else "fails")
+    return ok
+
+
 def build(ctx):
-    return ctx.harness("c18", ["c18.cpp", "c18_opt.cpp"], flags=["-I" + core.REPO])
+    flags = ["-I" + core.REPO]
+    ctx.c18_probes = {n: probe(ctx, n) for n in PROBES}
+    if ctx.c18_probes["MOEAD_RVEA"]: flags.append("-DC18_HAVE_MOEAD_RVEA")
+    if ctx.c18_probes["CVEC"]: flags.append("-DC18_HAVE_CVEC")
+    return ctx.harness("c18", ["c18.cpp", "c18_opt.cpp", "c18_models.cpp", "c18_moo.cpp"], flags=flags)
+
+
+def translator_classes():
+    """class names and families found by the translator (parsed from the generated Lean)"""
+    txt = open(os.path.join(core.LEAN, "SharkVerif", "Gen", "SerialData.lean")).read()
+    return dict(re.findall(r'name := "([^"]+)",.*?family := "([^"]*)"', txt, re.S))
+
+
+def coverage(ctx, cases):
+    found = translator_classes()
+    reached = set()
+    for c in cases:
+        t = c[0].split()
+        if t[0] == "obj":
+            if t[-1] == "PROBE-FAILS": continue
+            reached.update(t[3].split(","))
+        elif t[0] == "ds": reached.update(DS_KINDS.get(t[1], "").split(","))
+        elif t[0] == "vec": reached.add("vector")
+    reached &= set(found)
+    missing = sorted(set(found) - reached)
+    ctx.cov["classes_found_by_translator"] = len(found)
+    ctx.cov["classes_round_tripped"] = len(reached)
+    fam = {}
+    for c, f in found.items():
+        fam.setdefault(f, [0, 0]); fam[f][0] += 1; fam[f][1] += c in reached
+    ctx.cov["round_tripped_per_family"] = {f: f"{v[1]}/{v[0]}" for f, v in sorted(fam.items())}
+    ctx.sample({"classes_not_round_tripped": missing})
+    ctx.log(f"coverage: {len(reached)}/{len(found)} classes of the translator round-tripped; per family " +
+            ", ".join(f"{f} {v[1]}/{v[0]}" for f, v in sorted(fam.items())))
+    ctx.log("not round-tripped: " + " ".join(f"{c}({found[c]})" for c in missing))
 
 
 def run(ctx):
-    ctx.trusted += ["translator translate/serial_fields.py + reviewed allow-list translate/serial_transient.json",
-                    "correspondence harness harness/c18.cpp, c18_opt.cpp + generator checks/c18.py",
-                    "boost.serialization, libstdc++: exercised under ASan/UBSan, not modelled"]
-    ctx.assumptions += ["the fresh object is of the same type, wired to equivalent external objects (kernels, sub-models, objective "
-                        "function via init()) and configured by the same constructor arguments — allow-list categories external/config",
-                        "optimizer state is restored into an optimizer that was init()-ialised on the same objective from another point"]
+    ctx.trusted += ["translator translate/serial_fields.py + reviewed allow-list translate/serial_transient.json + type table CODEC_CLASSES",
+                    "correspondence harness harness/c18*.cpp (recording archive c18_tok.hpp) + generator checks/c18.py",
+                    "boost.serialization, libstdc++: exercised under ASan/UBSan, not modelled (bookkeeping tokens dropped by the recording archive)"]
+    ctx.assumptions += ["the target object is of the same type, wired to equivalent external objects (kernels, sub-models, objective "
+                        "function via init(), random number generator) and configured by the same constructor arguments — allow-list categories external/config",
+                        "optimizer state is restored into an optimizer that was init()-ialised on the same objective (from another point, and stepped)"]
     translate(ctx)
-    ctx.prove(["SharkVerif.Gen.Serial", "SharkVerif.Props.C18"])
+    ctx.prove(["SharkVerif.Gen.Serial", "SharkVerif.Gen.SerialCodec", "SharkVerif.Props.C18"])
     if not ctx.quick:
         ctx.leanchecker(["SharkVerif.Props.C18"])
     exe = build(ctx)
     drv = ctx.driver("drv_c18")
     if not exe or not drv:
         return
-    nds = 300 if ctx.quick else 20000
+    skip = set()
+    for name, ok in ctx.c18_probes.items():
+        key, what, _ = PROBES[name]
+        ctx.cov["probe_" + name] = "compiles: exercised" if ok else "does not compile (finding)"
+        if not ok:
+            skip |= {l for l, p in PROBED.items() if p == name}
+            ctx.violation(key, {"ops": [], "probe": f"g++ -fsyntax-only -DPROBE_{name} harness/c18_probe.cpp"}, True, what)
+    nds = 400 if ctx.quick else 20000
     cases = load_corpus()
     ctx.cov["corpus_cases"] = len(cases)
     r = ctx.rng.fork("c18")
-    cases += [[o] for o in object_ops(ctx, (0, 1, 2, 4) if ctx.quick else (0, 1, 2, 3, 4, 7, 12, 25))]
+    cases += [[o] for o in object_ops(ctx, (0, 1, 2, 3, 4, 5, 6) if ctx.quick else tuple(range(0, 26)), skip)]
+    # every dataset kind x every boundary batch structure, then random ones
+    for kind in DS_KINDS:
+        for fmt in ("text", "binary"):
+            for bs in ("", "0", "1", "0 0", "0 2 0", "1 1", "3 0 1"):
+                cases.append([f"ds {kind} {fmt} {r.choice([0, 1, 2, 3])} {r.below(50)} {bs}".strip()])
     cases += [[gen_ds(r, ctx)] for _ in range(nds)]
+    cases += [[gen_vec(r, ctx)] for _ in range(40 if ctx.quick else 2000)]
+    cases += [[f"wrap {r.choice(['text', 'binary'])} {r.choice([0, 1, 2, 5])} {r.below(20)}"] for _ in range(10 if ctx.quick else 300)]
     ctx.cov["evaluations"] = len(cases)
     ctx.cov["distinct_nontrivial"] = len({c[0] for c in cases if c[0].startswith("obj") or len(c[0].split()) >= 7})
     ctx.sample({"ops": [cases[0][0], cases[len(cases) // 2][0], cases[-1][0]]})
-    core.correspond(ctx, "K-C18", cases, [exe], [drv], classify, env=ENV, keep_prefix=0, max_report=8, timeout=900)
+    coverage(ctx, cases)
+    core.correspond(ctx, "K-C18", cases, [exe], [drv], classify, env=ENV, keep_prefix=0, max_report=8, timeout=1800)
 
 
 def replay(ctx, rep):
